@@ -133,6 +133,26 @@ pub fn generate(a: &Args) {
         ev["seed_line"] = json!(seed_line); ev["start"] = json!(seed); ev["tries"] = json!(tries); ev["search"] = json!(search);
         out.ev("Construct", "ok", ev);
     }
+    // mackay-neal with backtracking (random fill on tight row budgets so that the construction really backtracks): the two
+    // backtracking options are given different values
+    for i in 0..(if th { 36 } else { 12 }) {
+        out.new_case();
+        let (nr, nc, wr, wc) = [(8usize, 16usize, 6usize, 3usize), (6, 12, 6, 3), (5, 10, 4, 2), (9, 18, 6, 3)][i % 4];
+        let (bc, bt) = [(2usize, 40usize), (1, 10), (3, 7)][i % 3];
+        let seed = rng.next() % 1000;
+        let args = vec![s("mackay-neal"), nr.to_string(), nc.to_string(), wr.to_string(), wc.to_string(), seed.to_string(),
+            s("--backtrack-cols"), bc.to_string(), s("--backtrack-trials"), bt.to_string()];
+        let r = run_cli(&work, &args, 60);
+        let conf = MknConfig { nrows: nr, ncols: nc, wr, wc, backtrack_cols: bc, backtrack_trials: bt, min_girth: None, girth_trials: 0, fill_policy: FillPolicy::Random };
+        let libr = guarded(|| conf.run(seed).ok().map(|h| sha256_hex(h.alist().as_bytes()))).unwrap_or(None);
+        // did backtracking matter for this seed? (the same run without it fails or differs)
+        let plain = guarded(|| MknConfig { backtrack_cols: 0, backtrack_trials: 0, ..conf.clone() }.run(seed).ok().map(|h| sha256_hex(h.alist().as_bytes()))).unwrap_or(None);
+        let mut ev = base_ev(&args, &r);
+        ev["sub"] = json!("mackay-neal"); ev["out_sha"] = json!(canon_sha(&r.stdout)); ev["lib_ok"] = json!(libr.is_some()); ev["backtracked"] = json!(plain != libr);
+        ev["lib_sha"] = json!(libr.unwrap_or_default());
+        ev["seed_line"] = json!(-1); ev["start"] = json!(seed); ev["tries"] = json!(0); ev["search"] = json!(false);
+        out.ev("Construct", "ok", ev);
+    }
     // systematic
     let mut sys_cases: Vec<(String, Option<(Vec<Vec<usize>>, usize)>, &str)> = vec![];
     for i in 0..(if th { 60 } else { 14 }) {
@@ -205,15 +225,17 @@ pub fn generate(a: &Args) {
         out.ev("Encode", "ok", ev);
     }
     // ber: one result line per requested Eb/N0
-    for i in 0..(if th { 12 } else { 4 }) {
+    for i in 0..(if th { 18 } else { 6 }) {
         out.new_case();
+        // Eb/N0 grids in centi-dB (min, max, step), all exactly representable quotients: on the grid, and off it by less / exactly / more than half a step
+        let (min_c, max_c, step_c) = [(-400i64, -400i64, 100i64), (-400, -275, 50), (-400, -350, 100), (-400, -325, 50), (-450, -300, 100), (-400, -305, 25)][i % 6];
         let (ncw, r0) = [(6usize, 3usize), (12, 6), (12, 6), (24, 12)][i % 4];
         let rows = systematic_code(ncw, r0, 500 + i as u64);
         std::fs::write(format!("{work}/ber{i}.alist"), matrix(&rows, ncw).alist()).unwrap();
-        let npoints = 1 + i % 3;
+        let npoints = (max_c - min_c) / step_c + 1;
         let target = 5 + i as u64;
         let bch = if i % 2 == 1 { 1u64 } else { 0 };
-        let mut args = vec![s("ber"), format!("ber{i}.alist"), s("--min-ebn0=-4"), format!("--max-ebn0={}", -4 + (npoints as i64 - 1)), s("--step-ebn0=1"),
+        let mut args = vec![s("ber"), format!("ber{i}.alist"), format!("--min-ebn0={}", min_c as f64 / 100.0), format!("--max-ebn0={}", max_c as f64 / 100.0), format!("--step-ebn0={}", step_c as f64 / 100.0),
             s("--frame-errors"), target.to_string(), s("--max-iter"), s("5"), s("--output-file"), format!("ber{i}.txt")];
         if i % 4 == 2 { args.push(s("--modulation")); args.push(s("PSK8")); }
         // puncturing / interleaving given on the command line: the printed details must show the sizes after puncturing
@@ -233,7 +255,7 @@ pub fn generate(a: &Args) {
                 }).collect()
         };
         let mut ev = base_ev(&args, &r);
-        ev["npoints"] = json!(npoints); ev["target"] = json!(target); ev["bch"] = json!(bch); ev["k"] = json!(ncw - r0);
+        ev["npoints"] = json!(npoints); ev["min_c"] = json!(min_c); ev["max_c"] = json!(max_c); ev["step_c"] = json!(step_c); ev["target"] = json!(target); ev["bch"] = json!(bch); ev["k"] = json!(ncw - r0);
         // the parameter block printed on stdout
         let so = String::from_utf8_lossy(&r.stdout).to_string();
         let field = |key: &str| -> f64 { so.lines().find_map(|l| l.trim().strip_prefix(key).and_then(|x| x.trim().parse::<f64>().ok())).unwrap_or(-1.0) };
